@@ -51,11 +51,41 @@ def run(tier, repo):
             if w not in gs and not any(g[0] == w[0] for g in got):
                 rp.fail("PATH", "%s/%s/missing" % (m, "/".join(w[0]) or "-"), site(f), "reference path [%s] -> %s, %s does not exist in the code" % (", ".join(w[0]), list(w[1]), w[2]))
     rp.floor("paths", total, 24)
-    # the one-shot payload parser the defragmenter relies on: a fragment must be signalled by Incomplete / ErrorKind::Complete,
-    # which is the case exactly when its grammar is the reference one (streaming reads under complete() before any length-dependent rejection)
-    from ..gcommon import grammar_rules
-    rp.rule("ONE-SHOT-GRAMMAR", "parse_tls_record_with_header (the parser applied to the accumulated buffer) has the reference grammar, so a truncated first message yields Incomplete or ErrorKind::Complete and nothing else")
-    grammar_rules(rp, F, "C07", rule="ONE-SHOT-GRAMMAR")
+    # the one-shot payload parser must signal "fragment" by Incomplete / ErrorKind::Complete and by nothing else:
+    # in the arms of the fragmentable content types the first thing that can fail on a short input is a streaming read
+    # under complete(); a rejection that depends only on the declared record length must not come before those reads
+    from ..pir import Ev, Opaque, walk_steps
+    from ..grammar_check import free_vars
+    rp.rule("FRAGMENT-SIGNAL", "in the Handshake and Heartbeat arms of parse_tls_record_with_header the message grammar starts with a streaming read under complete(); no guard over parameters only (e.g. the record length) precedes the first read")
+    try:
+        seq = Ev(F).fn_seq("tls_record::parse_tls_record_with_header")
+        sw = [st for st in seq["steps"] if st[0] == "switch"]
+        arms = {c: s for c, s in sw[0][3]} if sw else {}
+        for ct, nm in ((0x16, "handshake"), (0x18, "heartbeat")):
+            a = arms.get(ct)
+            if not rp.check(a is not None, "FRAGMENT-SIGNAL", nm + "/arm", "src/tls_record.rs", "no arm for content type %#x" % ct):
+                continue
+            # descend through many1/complete wrappers to the message grammar
+            cur = a
+            wrappers = []
+            while len(cur["steps"]) == 1 and cur["steps"][0][0] in ("many1", "many0", "complete"):
+                wrappers.append(cur["steps"][0][0])
+                cur = cur["steps"][0][2]
+            first = cur["steps"][0] if cur["steps"] else None
+            early = []
+            for stp in cur["steps"]:
+                if stp[0] in ("u", "bytes", "tag"):
+                    break
+                if stp[0] == "guard":
+                    fv = set()
+                    free_vars(stp[1], fv)
+                    if all(x.startswith("?") for x in fv):
+                        early.append(stp)
+            rp.check(first is not None and not early and ("complete" in wrappers or first[0] in ("u", "bytes")), "FRAGMENT-SIGNAL", nm, "src/tls_message.rs" if nm == "heartbeat" else "src/tls_handshake.rs",
+                     "a short first fragment of a %s payload is rejected before the streaming reads can signal Incomplete/Complete (guard over the record length precedes the reads): the defragmenter would refuse the fragment instead of buffering it" % nm,
+                     found=str(early[:1] or first)[:200], why_ok="message grammar starts with a streaming read (wrappers: %s)" % wrappers)
+    except (Opaque, KeyError) as o:
+        rp.fail("FRAGMENT-SIGNAL", "unrecognised", "src/tls_record.rs", "parse_tls_record_with_header cannot be read: %s" % o)
     v = F.const_val("tls_records_parser::MAX_RECORD_DATA")
     rp.check(v == S.MAX, "CONSTANTS", "MAX_RECORD_DATA", "src/tls_records_parser.rs", "MAX_RECORD_DATA is %s, not 10 MiB" % v, expected=S.MAX, found=v)
     a = F.adts.get("tls_records_parser::TlsRecordsParser")
